@@ -96,7 +96,8 @@ Record con := {
   c_std : option string;          (* standard_name property: the default netCDF variable name *)
   c_ncvar : option string;
   c_bounds : option bnds;
-  c_strlen : option Z;            (* Some w: string valued, stored as char with a strlen-w dimension *)
+  c_strlen : option Z;            (* Some w: string valued, longest string w; stored as netCDF strings (fmt NETCDF4 and
+                                     string=True) or as char with a trailing strlen-w dimension *)
   c_measure : string              (* cell measures only *)
 }.
 
@@ -109,12 +110,22 @@ Record skel := {
   f_cms : list cellmethod
 }.
 
-(* write options: only `coordinates' reaches the data-model mapping *)
+(* write options: `coordinates' reaches the data-model mapping; fmt and string decide how strings are stored *)
 Record options := { o_fmt : nat; o_compress : nat; o_shuffle : bool; o_fletcher32 : bool; o_endian : nat;
-                    o_chunks : nat; o_coordinates : bool }.
+                    o_chunks : nat; o_coordinates : bool; o_string : bool }.
+
+(* the storage type of a netCDF variable, as far as the reader looks at it (_is_char / _is_string) *)
+Inductive vkind := KNum | KChar | KStr.
+
+(* NetCDFWrite._datatype / _transform_strings: string data are netCDF strings only for fmt NETCDF4 (0) with
+   string=True; otherwise a char array with a trailing string-length dimension *)
+Definition vlen (o : options) : bool := Nat.eqb (o_fmt o) 0 && o_string o.
+Definition skind (o : options) (sl : option Z) : vkind :=
+  match sl with None => KNum | Some _ => if vlen o then KStr else KChar end.
+Definition eff_strlen (o : options) (sl : option Z) : option Z := if vlen o then None else sl.
 
 (* ------------------------------------------------------------------ abstract dataset *)
-Record var := { v_name : string; v_dims : list string; v_attrs : list (string * string) }.
+Record var := { v_name : string; v_dims : list string; v_attrs : list (string * string); v_kind : vkind }.
 Record ads := { d_dims : list (string * (Z * bool)); d_vars : list var }.
 
 Definition attr (k : string) (v : var) : option string := assoc k (v_attrs v).
@@ -209,7 +220,7 @@ Definition write_bounds (b : option bnds) (cdims : list string) (cvar : string) 
     let w2 := if newdim then add_dim bdim (b_n b) false w1 else w1 in
     let default := if newdim then cvar +++ "_bounds" else "bounds" in
     let '(bvar, w3) := alloc (opt_or (b_ncvar b) default) w2 in
-    ([("bounds", bvar)], add_var {| v_name := bvar; v_dims := cdims ++ [bdim]; v_attrs := [] |} w3)
+    ([("bounds", bvar)], add_var {| v_name := bvar; v_dims := cdims ++ [bdim]; v_attrs := []; v_kind := KNum |} w3)
   end.
 
 (* the superseded _write_bounds (before C01-fix3-3): any bounds dimension of the same size was reused, also when
@@ -224,7 +235,7 @@ Definition write_bounds_old (b : option bnds) (cdims : list string) (cvar : stri
     let w2 := if newdim then add_dim bdim (b_n b) false w1 else w1 in
     let default := if newdim then cvar +++ "_bounds" else "bounds" in
     let '(bvar, w3) := alloc (opt_or (b_ncvar b) default) w2 in
-    ([("bounds", bvar)], add_var {| v_name := bvar; v_dims := cdims ++ [bdim]; v_attrs := [] |} w3)
+    ([("bounds", bvar)], add_var {| v_name := bvar; v_dims := cdims ++ [bdim]; v_attrs := []; v_kind := KNum |} w3)
   end.
 
 (* string-valued data: a trailing strlen dimension (_transform_strings / _string_length_dimension) *)
@@ -262,13 +273,13 @@ Definition write_axis (fix1 : bool) (o : options) (f : skel) (w : wstate) (a : n
       let '(ncvar, w1) := dimcoord_name fix1 c (a_ncdim ax) w in
       let w2 := set_axdim a ncvar (add_dim ncvar (a_size ax) (a_unlim ax) w1) in
       let '(extra, w3) := write_bounds (c_bounds c) [ncvar] ncvar w2 in
-      let w4 := add_var {| v_name := ncvar; v_dims := [ncvar]; v_attrs := extra |} w3 in
+      let w4 := add_var {| v_name := ncvar; v_dims := [ncvar]; v_attrs := extra; v_kind := KNum |} w3 in
       if o_coordinates o then add_coord ncvar w4 else w4
     else
       (* scalar coordinate variable *)
       let '(ncvar, w1) := alloc (base_name (c_ncvar c) (c_std c) "scalar") w in
       let '(extra, w2) := write_bounds (c_bounds c) [] ncvar w1 in
-      let w3 := add_var {| v_name := ncvar; v_dims := []; v_attrs := extra |} w2 in
+      let w3 := add_var {| v_name := ncvar; v_dims := []; v_attrs := extra; v_kind := KNum |} w2 in
       add_coord ncvar (set_axscalar a ncvar w3)
   | None =>
     if inb a (f_data_axes f) then
@@ -277,18 +288,36 @@ Definition write_axis (fix1 : bool) (o : options) (f : skel) (w : wstate) (a : n
     else w
   end.
 
-Definition write_aux (w : wstate) (c : con) : wstate :=
-  let dims := dims_of w (c_axes c) in
-  let '(ncvar, w1) := alloc (base_name (c_ncvar c) (c_std c) "auxiliary") w in
-  let '(extra, w2) := write_bounds (c_bounds c) dims ncvar w1 in
-  let '(vdims, w3) := with_strlen (c_strlen c) dims w2 in
-  add_coord ncvar (add_var {| v_name := ncvar; v_dims := vdims; v_attrs := extra |} w3).
+(* the size-1 axis of a 1-d auxiliary coordinate that the data do not span (`len(axes) > 1 or axes[0] in
+   data_axes' fails): the coordinate is written as a scalar coordinate variable *)
+Definition scalar_axis (f : skel) (c : con) : option nat :=
+  match c_axes c with
+  | [a] => if inb a (f_data_axes f) then None else Some a
+  | _ => None
+  end.
+
+Definition write_aux (o : options) (f : skel) (w : wstate) (c : con) : wstate :=
+  match scalar_axis f c with
+  | Some a =>
+    (* _write_scalar_coordinate: no dimension (but the string-length one of a char array) *)
+    let '(ncvar, w1) := alloc (base_name (c_ncvar c) (c_std c) "scalar") w in
+    let '(extra, w2) := write_bounds (c_bounds c) [] ncvar w1 in
+    let '(vdims, w3) := with_strlen (eff_strlen o (c_strlen c)) [] w2 in
+    add_coord ncvar (set_axscalar a ncvar
+      (add_var {| v_name := ncvar; v_dims := vdims; v_attrs := extra; v_kind := skind o (c_strlen c) |} w3))
+  | None =>
+    let dims := dims_of w (c_axes c) in
+    let '(ncvar, w1) := alloc (base_name (c_ncvar c) (c_std c) "auxiliary") w in
+    let '(extra, w2) := write_bounds (c_bounds c) dims ncvar w1 in
+    let '(vdims, w3) := with_strlen (eff_strlen o (c_strlen c)) dims w2 in
+    add_coord ncvar (add_var {| v_name := ncvar; v_dims := vdims; v_attrs := extra; v_kind := skind o (c_strlen c) |} w3)
+  end.
 
 Definition write_plain (default : string) (wl : wstate * list string) (c : con) : wstate * list string :=
   let '(w, l) := wl in
   let dims := dims_of w (c_axes c) in
   let '(ncvar, w1) := alloc (base_name (c_ncvar c) (c_std c) default) w in
-  (add_var {| v_name := ncvar; v_dims := dims; v_attrs := [] |} w1,
+  (add_var {| v_name := ncvar; v_dims := dims; v_attrs := []; v_kind := KNum |} w1,
    l ++ [match c_type c with CMeasure => c_measure c +++ ": " +++ ncvar | _ => ncvar end]).
 
 Definition is_type (t : ctype) (c : con) : bool :=
@@ -316,14 +345,14 @@ Definition opt_attr (k : string) (l : list string) : list (string * string) :=
 
 Definition write_skel_gen (fix1 : bool) (o : options) (f : skel) : ads :=
   let w1 := fold_left (write_axis fix1 o f) (seq 0 (length (f_axes f))) w0 in
-  let w2 := fold_left write_aux (filter (is_type CAux) (f_cons f)) w1 in
+  let w2 := fold_left (write_aux o f) (filter (is_type CAux) (f_cons f)) w1 in
   let '(w3, measures) := fold_left (write_plain "cell_measure") (filter (is_type CMeasure) (f_cons f)) (w2, []) in
   let '(w4, ancs) := fold_left (write_plain "ancillary_data") (filter (is_type CFanc) (f_cons f)) (w3, []) in
   let '(ncvar, w5) := alloc (base_name (f_ncvar f) (f_std f) "data") w4 in
   let attrs := opt_attr "cell_measures" measures ++ opt_attr "coordinates" (w_coords w5)
                ++ opt_attr "ancillary_variables" ancs
                ++ opt_attr "cell_methods" (map (cm_string w5) (f_cms f)) in
-  let w6 := add_var {| v_name := ncvar; v_dims := dims_of w5 (f_data_axes f); v_attrs := attrs |} w5 in
+  let w6 := add_var {| v_name := ncvar; v_dims := dims_of w5 (f_data_axes f); v_attrs := attrs; v_kind := KNum |} w5 in
   {| d_dims := w_dims w6; d_vars := w_vars w6 |}.
 
 Definition write_skel := write_skel_gen true.
@@ -359,11 +388,34 @@ Definition is_coordvar (d : ads) (dim : string) : option var :=
   | None => None
   end.
 
+(* compression by gathering: a list variable is the coordinate-like variable of the list dimension and
+   names the dimensions it replaces in its `compress' attribute.  (The test has_compress only short-cuts
+   the common case of a dataset without list variables; flat_map would give the same answer.) *)
+Definition has_compress (d : ads) : bool :=
+  existsb (fun v => match attr "compress" v with Some _ => true | None => false end) (d_vars d).
+
+Definition compress_of (d : ads) (dim : string) : option (list string) :=
+  match find_var dim d with
+  | Some v => match attr "compress" v with Some s => Some (split_ws s) | None => None end
+  | None => None
+  end.
+
+(* NetCDFRead._ncdimensions: the UNCOMPRESSED dimensions a variable implies *)
+Definition implied (d : ads) (dims : list string) : list string :=
+  if has_compress d
+  then flat_map (fun x => match compress_of d x with Some l => l | None => [x] end) dims
+  else dims.
+
+Definition compress_vars (d : ads) : list string :=
+  if has_compress d
+  then flat_map (fun v => match attr "compress" v with Some _ => [v_name v] | None => [] end) (d_vars d)
+  else [].
+
 (* variables that a variable's metadata refer to (the reader's `references' census) *)
 Definition refs_of (d : ads) (v : var) : list string :=
   let co := flat_map (fun dim => match is_coordvar d dim with
                                  | Some c => if String.eqb (v_name c) (v_name v) then [] else [v_name c]
-                                 | None => [] end) (v_dims v) in
+                                 | None => [] end) (implied d (v_dims v)) in
   let aux := tokens "coordinates" v in
   let ms := map snd (pairs_of (tokens "cell_measures" v)) in
   let an := tokens "ancillary_variables" v in
@@ -376,7 +428,7 @@ Definition bounds_vars (d : ads) : list string :=
   flat_map (fun v => match attr "bounds" v with Some b => [b] | None => [] end) (d_vars d).
 
 Definition referenced (d : ads) : list string :=
-  bounds_vars d ++ flat_map (refs_of d) (d_vars d).
+  bounds_vars d ++ compress_vars d ++ flat_map (refs_of d) (d_vars d).
 
 Definition data_vars (d : ads) : list var :=
   filter (fun v => negb (mem (v_name v) (referenced d))) (d_vars d).
@@ -393,33 +445,38 @@ Definition mk_rcon (t : ctype) (d : ads) (v : var) (axes : list string) (measure
 Definition sub_dims (dims data_dims : list string) : list string :=
   filter (fun x => mem x data_dims) dims.
 
+(* a scalar coordinate variable (no dimension left once the string-length dimension of a char array is
+   set aside): string valued (_is_char_or_string) -> 1-d auxiliary coordinate on a new size-1 axis; numeric
+   -> dimension coordinate on a new size-1 axis *)
+Definition scalar_class (k : vkind) : ctype := match k with KNum => CDim | KChar | KStr => CAux end.
+
+(* the names in the `coordinates' attribute that are looked at as auxiliary / scalar coordinate variables:
+   `if ncvar in field_ncdimensions: continue' with the IMPLIED (uncompressed) dimensions of the data variable *)
+Definition coord_candidates (d : ads) (v : var) : list string :=
+  filter (fun n => negb (mem n (implied d (v_dims v)))) (tokens "coordinates" v).
+
 Definition read_var (d : ads) (v : var) : rskel :=
-  let dd := v_dims v in
+  let dd := implied d (v_dims v) in
   let dimcoords := flat_map (fun dim => match is_coordvar d dim with
                                         | Some c => [mk_rcon CDim d c [dim] ""] | None => [] end) dd in
-  let coords := filter (fun n => negb (mem n dd)) (tokens "coordinates" v) in
+  let coords := coord_candidates d v in
   let aux_or_scalar := flat_map (fun n =>
        match find_var n d with
        | None => []
-       | Some c => match sub_dims (v_dims c) dd with
-                   | [] => (* scalar coordinate variable: numeric -> dimension coordinate on a new axis;
-                              char (one non-data dimension) -> auxiliary coordinate on a new axis *)
-                           match v_dims c with
-                           | [] => [mk_rcon CDim d c ["@" +++ n] ""]
-                           | _ => [mk_rcon CAux d c ["@" +++ n] ""]
-                           end
+       | Some c => match sub_dims (implied d (v_dims c)) dd with
+                   | [] => [mk_rcon (scalar_class (v_kind c)) d c ["@" +++ n] ""]
                    | axes => [mk_rcon CAux d c axes ""]
                    end
        end) coords in
   let scalar_axes := flat_map (fun n =>
        match find_var n d with
-       | Some c => match sub_dims (v_dims c) dd with [] => [("@" +++ n, (1%Z, false))] | _ => [] end
+       | Some c => match sub_dims (implied d (v_dims c)) dd with [] => [("@" +++ n, (1%Z, false))] | _ => [] end
        | None => [] end) coords in
   let measures := flat_map (fun mn => match find_var (snd mn) d with
-                                      | Some c => [mk_rcon CMeasure d c (sub_dims (v_dims c) dd) (strip_colon (fst mn))]
+                                      | Some c => [mk_rcon CMeasure d c (sub_dims (implied d (v_dims c)) dd) (strip_colon (fst mn))]
                                       | None => [] end) (pairs_of (tokens "cell_measures" v)) in
   let ancs := flat_map (fun n => match find_var n d with
-                                 | Some c => [mk_rcon CFanc d c (sub_dims (v_dims c) dd) ""]
+                                 | Some c => [mk_rcon CFanc d c (sub_dims (implied d (v_dims c)) dd) ""]
                                  | None => [] end) (tokens "ancillary_variables" v) in
   {| rs_ncvar := v_name v; rs_data_axes := dd;
      rs_axes := map (fun dim => (dim, opt_or (assoc dim (d_dims d)) (0%Z, false))) dd ++ scalar_axes;
